@@ -206,7 +206,7 @@ def scan(repo, kinds=None):
         if "tests" in parts or parts[-1] in ("tests.rs", "mock.rs") or "s2n-quic" in parts:
             continue
         # verification hook files (cfg(feature = "verif"), add-only) are not part of the crate proper
-        if parts[-1].startswith("verif"):
+        if parts[-1] == "verif.rs" or parts[-1].startswith("verif_"):
             continue
         s = strip_tests(blank(open(os.path.join(repo, rel)).read()))
         for kind, rx, only in kinds:
